@@ -34,8 +34,10 @@ PARTIAL = [
     "C20_merge_cid_states_order show set-equality of the merged stores",
     "CanonStreamMap::as_jvalue is order DEPENDENT when two keys render to the same string (42 and \"42\"): C20_canon_map_refuted, replayed on the "
     "real code (known finding canon-map-colliding-keys); C20_canon_map_order holds for collision-free keys",
-    "preparation errors on data with several culprits (codes 8 / 9): the code is stable (C15_order for the verifier), the message names the culprit "
-    "met first in hash order (known finding preparation-error-names-first-culprit)",
+    "preparation errors on data with several culprits (codes 8 / 9): the code is stable (C15_order for the verifier); DataVerifier::verify and "
+    "CidStore::verify* visit their maps in key order since fix 7dbe90a (C20_first_culprit_source_tie reads it from the source); five message-only sites "
+    "still name the culprit met first in hash order (DataVerifier::new MalformedKey, merge MergeMismatch, cid_info.rs dangling references): "
+    "known finding preparation-error-first-culprit-uncovered-sites",
 ]
 ASSUMPTIONS = [
     "the catalogue (tools/genx_det.py) is a regex-level scan: hash containers reached only through a type the scan does not see as one are not listed; "
@@ -48,7 +50,20 @@ HEADER = ("From Aqua Require Import Base Json JsonText Air Trace Handler Values 
           "Open Scope N_scope.\nOpen Scope list_scope.\nOpen Scope string_scope.\n")
 
 SERVICES = airgen.DEFAULT_SERVICES + [["s", "mapprobe", {"echo": 0}], ["s", "k1", {"const": "alpha"}], ["s", "k2", {"const": 7}]]
-KNOWN = {"canon-map-colliding-keys", "preparation-error-names-first-culprit"}
+KNOWN = {"canon-map-colliding-keys", "preparation-error-first-culprit-uncovered-sites"}
+TAMPERS = ["swap_sigs", "swap_sigs", "drop_sigs", "bad_values", "two_bad_keys", "dangling_refs", "fork_data", "fork_data"]
+
+
+def fork_services():
+    """the same service table with other results: the second world of `fork_data` probes"""
+    sv = json.loads(json.dumps(SERVICES))
+    for e in sv:
+        if "const" in e[2] and e[1] not in ("peer_b", "peer_c", "peers"):
+            e[2] = {"const": {"forked": e[1]}}
+        elif "peertag" in e[2]:
+            e[2] = {"const": "forked-tag"}
+    return sv
+
 
 
 def children(tier):
@@ -133,8 +148,9 @@ def add_probes(rng, c):
     if rng.random() < 0.6:
         c["bogus"] = [[rng.randrange(min(n, 12)), rng.randrange(len(c["peers"])), rng.choice([2, 2, 3, 4])] for _ in range(rng.randint(1, 3))]
     if rng.random() < 0.5:
-        c["tamper"] = [[rng.randrange(1, min(n, 14)), rng.choice(["swap_sigs", "swap_sigs", "drop_sigs", "bad_values"]), rng.randrange(1000)]
-                       for _ in range(rng.randint(1, 4))]
+        c["tamper"] = [[rng.randrange(1, min(n, 14)), rng.choice(TAMPERS), rng.randrange(1000)] for _ in range(rng.randint(1, 5))]
+        if any(t[1] == "fork_data" for t in c["tamper"]):
+            c["services_fork"] = fork_services()
     return c
 
 
